@@ -163,7 +163,7 @@ func (nd *vC13Node) closeAll() {
 
 func TestVerif_C13_modes(t *testing.T) {
 	vh.Run(t, vh.Spec{Prop: "C13", Unit: "modes", Quick: 1500, Thorough: 50000, CostMs: 4,
-		Rule:    "PRNG Mode option (auto, client, server, autoserver) x sequence of 1-8 EvtLocalReachabilityChanged events (public/private/unknown) emitted on the host's event bus, synctest.Wait() between steps; before each event requests on 0-2 new and on already-open inbound streams (server: answered; client: the host has no handler and a stream dispatched to the DHT handler anyway is reset unanswered); at each event optionally a request racing with it (written just before / just after the emit, on an open stream, on a new stream, or on a stream whose protocol negotiation overlaps the event; no Wait in between); after each event at rest: handler registered <=> mode(last event, option), every inbound stream open at a switch to client has been reset and its handler returned, streams open across a non-switch still serve; non-trivial = at least one real mode switch with open streams or a raced request; distinct by (option, event sequence, race outcomes)",
+		Rule:    "PRNG Mode option (auto, client, server, autoserver) x sequence of 1-8 EvtLocalReachabilityChanged events (public/private/unknown) emitted on the host's event bus, synctest.Wait() between steps (one step in five is a burst of 2-4 events emitted back to back: the mode is that of the last one); before each event requests on 0-2 new and on already-open inbound streams (server: answered; client: the host has no handler and a stream dispatched to the DHT handler anyway is reset unanswered); at each event optionally a request racing with it (written just before / just after the emit, on an open stream, on a new stream, or on a stream whose protocol negotiation overlaps the event; no Wait in between); after each event at rest: handler registered <=> mode(last event, option), every inbound stream open at a switch to client has been reset and its handler returned, streams open across a non-switch still serve; non-trivial = at least one real mode switch with open streams or a raced request; distinct by (option, event sequence, race outcomes)",
 		Clauses: []string{"handlers-iff-mode-of-last-event", "server-mode-answers", "client-mode-answers-nothing", "open-streams-reset-on-switch-to-client", "raced-request-answered-or-reset", "fixed-mode-never-changes", "client-mode-stream-handler-returns"}},
 		func(c *vh.Case) {
 			c.Bubble(t, time.Hour, "mode-switch-hang", func(t *testing.T) {
@@ -212,10 +212,35 @@ func TestVerif_C13_modes(t *testing.T) {
 					}
 					time.Sleep(time.Duration(1+r.Intn(300)) * time.Millisecond)
 					// ---- the event, optionally raced by a request ----
-					reach := []network.Reachability{network.ReachabilityPublic, network.ReachabilityPrivate, network.ReachabilityUnknown}[r.Intn(3)]
+					reaches := []network.Reachability{network.ReachabilityPublic, network.ReachabilityPrivate, network.ReachabilityUnknown}
+					// one step in five is a burst: 1-3 further events emitted back to back in front of the step's own event,
+					// without a rest point in between; the mode is still that of the LAST event. viaClient / viaServer: the node
+					// passes through client / server mode on the way (streams open before the burst are then legitimately reset; a
+					// request racing with the burst may be answered).
+					var burst []network.Reachability
+					viaClient, viaServer := false, false
+					if r.Intn(5) == 0 {
+						for j, k := 0, 1+r.Intn(3); j < k; j++ {
+							b := reaches[r.Intn(3)]
+							burst = append(burst, b)
+							seq = append(seq, vC13ReachNames[b]+"+")
+							if vC13Next(opt, server, b) {
+								viaServer = true
+							} else {
+								viaClient = true
+							}
+						}
+						c.Obs("burst_events", len(burst))
+					}
+					reach := reaches[r.Intn(3)]
 					next := vC13Next(opt, server, reach)
 					seq = append(seq, vC13ReachNames[reach])
 					emit := func() {
+						for _, b := range burst {
+							if err := n.H.Emit(event.EvtLocalReachabilityChanged{Reachability: b}); err != nil {
+								panic(err)
+							}
+						}
 						if err := n.H.Emit(event.EvtLocalReachabilityChanged{Reachability: reach}); err != nil {
 							panic(err)
 						}
@@ -285,10 +310,10 @@ func TestVerif_C13_modes(t *testing.T) {
 						c.Obs("raced_requests", 1)
 						c.Obs("raced_"+out, 1)
 						ok := out == "answered" || out == "reset" || out == "answered+reset"
-						if server && next { // no switch: plain server behaviour
+						if server && next && !viaClient { // no switch: plain server behaviour
 							ok = out == "answered"
 						}
-						if !server && !next { // client all along (stale dispatch only)
+						if !server && !next && !viaServer { // client all along (stale dispatch only)
 							ok = out == "reset"
 						}
 						c.Check(ok, "raced-request-answered-or-reset", "%s: request racing with event %s (server %v -> %v): outcome %s %s", what, vC13ReachNames[reach], server, next, out, detail)
@@ -327,7 +352,7 @@ func TestVerif_C13_modes(t *testing.T) {
 						var keep []*vInStream
 						for _, st := range nd.open {
 							if st.L.WasReset() {
-								c.Check(!server, "server-mode-answers", "%s: stream from %s reset although the node stayed in server mode", what, n.Name(st.From))
+								c.Check(!server || viaClient, "server-mode-answers", "%s: stream from %s reset although the node stayed in server mode", what, n.Name(st.From))
 								continue
 							}
 							keep = append(keep, st)
